@@ -113,7 +113,7 @@ def r14a(R):
               'from the old mode into the new one')
 def r14b(R):
     A = R.A
-    sw = A.func(MACHINE, 'Machine._switch_unit_mode')
+    sw = A.normalised(A.func(MACHINE, 'Machine._switch_unit_mode'))
     cfg = A.cfg(sw)
     # names: the new mode is the parameter, the old mode the local taken
     # from the unit_mode register
@@ -515,22 +515,29 @@ def r15d(R):
                 'a range with an omitted end leaves the previous `last` value '
                 'in the register', path=path_text(p) if p else None)
     nr = A.func(MATRIX, 'ColorMatrix._normalize_rect')
-    matches = [n for n in walk_own(nr.node) if isinstance(n, ast.Match)]
-    sig = []
-    for mt in matches:
-        subj = norm(mt.subject)
-        axis = ('top', 'bottom') if 'top' in subj else ('left', 'right')
-        cases = []
-        for case in mt.cases:
-            body = '; '.join(norm(s) for s in case.body)
-            body = body.replace(axis[0], 'LO').replace(axis[1], 'HI') \
-                .replace('height', 'EXT').replace('width', 'EXT')
-            cases.append((norm(case.pattern), body))
-        sig.append((subj.replace(axis[0], 'LO').replace(axis[1], 'HI'), cases))
-    want_cases = [('[True, True]', 'rect.LO = 0; rect.HI = self.EXT - 1'),
-                  ('[True, False]', 'rect.LO = rect.HI'),
-                  ('[False, True]', 'rect.HI = rect.LO')]
-    ok = len(sig) == 2 and sig[0] == sig[1] and sig[0][1] == want_cases
+    # evaluate the routine for every combination of given / omitted bounds
+    param = nr.params[1] if len(nr.params) > 1 else 'rect'
+    want = {(True, True): ('0', 'EXT-1'), (True, False): ('HI', 'HI'),
+            (False, True): ('LO', 'LO'), (False, False): ('LO', 'HI')}
+    ok = True
+    detail = []
+    for lo_f, hi_f, ext in (('top', 'bottom', 'height'), ('left', 'right', 'width')):
+        for (lo_none, hi_none), expect in want.items():
+            env = {'%s.%s' % (param, lo_f): None if lo_none else 'LO',
+                   '%s.%s' % (param, hi_f): None if hi_none else 'HI'}
+            for other in ('top', 'bottom', 'left', 'right'):
+                env.setdefault('%s.%s' % (param, other), 'X')
+            try:
+                _mini_exec(nr.node.body, env, {'self.%s' % ext: 'EXT',
+                                               'self._%s' % ext: 'EXT'})
+            except Unfoldable as ex:
+                raise AnalysisError('_normalize_rect: cannot evaluate (%s)' % ex)
+            got = (str(env['%s.%s' % (param, lo_f)]).replace(' ', ''),
+                   str(env['%s.%s' % (param, hi_f)]).replace(' ', ''))
+            if got != expect:
+                ok = False
+                detail.append('%s/%s omitted=%s/%s -> %s' % (
+                    lo_f, hi_f, lo_none, hi_none, got))
     R.check(nr, 'rows and columns normalised by the same three cases', ok,
             'the two axes are normalised differently, or an omitted bound is '
             'not replaced by the other bound / the full extent')
@@ -586,6 +593,84 @@ def r15e(R):
             'clamped instead of wrapped - not what a plain set transmits' % bad)
 
 
+class _Return(Exception):
+    pass
+
+
+def _mini_eval(e, env, syms):
+    """Tiny symbolic evaluator: values are None, bools, ints, tuples or
+    symbol strings."""
+    t = norm(e)
+    if t in env:
+        return env[t]
+    if t in syms:
+        return syms[t]
+    if isinstance(e, ast.Constant):
+        return e.value
+    if isinstance(e, ast.Tuple):
+        return tuple(_mini_eval(x, env, syms) for x in e.elts)
+    if isinstance(e, ast.Compare) and len(e.ops) == 1:
+        l, r = _mini_eval(e.left, env, syms), _mini_eval(e.comparators[0], env, syms)
+        if isinstance(e.ops[0], (ast.Is, ast.Eq)):
+            return l is r if (l is None or r is None) else l == r
+        if isinstance(e.ops[0], (ast.IsNot, ast.NotEq)):
+            return not (l is r if (l is None or r is None) else l == r)
+    if isinstance(e, ast.UnaryOp) and isinstance(e.op, ast.Not):
+        return not _mini_eval(e.operand, env, syms)
+    if isinstance(e, ast.BoolOp):
+        vals = [_mini_eval(v, env, syms) for v in e.values]
+        return all(vals) if isinstance(e.op, ast.And) else any(vals)
+    if isinstance(e, ast.BinOp) and isinstance(e.op, (ast.Sub, ast.Add)):
+        l, r = _mini_eval(e.left, env, syms), _mini_eval(e.right, env, syms)
+        return '%s%s%s' % (l, '-' if isinstance(e.op, ast.Sub) else '+', r)
+    if isinstance(e, ast.IfExp):
+        return _mini_eval(e.body if _mini_eval(e.test, env, syms) else e.orelse,
+                          env, syms)
+    raise Unfoldable(t)
+
+
+def _mini_match(pat, value):
+    if isinstance(pat, ast.MatchSequence):
+        return isinstance(value, tuple) and len(value) == len(pat.patterns) \
+            and all(_mini_match(p, v) for p, v in zip(pat.patterns, value))
+    if isinstance(pat, ast.MatchSingleton):
+        return value is pat.value
+    if isinstance(pat, ast.MatchValue):
+        return value == ast.literal_eval(pat.value)
+    if isinstance(pat, ast.MatchAs) and pat.pattern is None:
+        return True
+    raise Unfoldable('pattern %s' % ast.dump(pat)[:40])
+
+
+def _mini_exec(stmts, env, syms):
+    for s in stmts:
+        if isinstance(s, ast.Expr) and isinstance(s.value, ast.Constant):
+            continue
+        if isinstance(s, ast.Assign):
+            v = _mini_eval(s.value, env, syms)
+            for t in s.targets:
+                if isinstance(t, (ast.Tuple, ast.List)):
+                    for tt, vv in zip(t.elts, v):
+                        env[norm(tt)] = vv
+                else:
+                    env[norm(t)] = v
+        elif isinstance(s, ast.If):
+            _mini_exec(s.body if _mini_eval(s.test, env, syms) else s.orelse,
+                       env, syms)
+        elif isinstance(s, ast.Match):
+            subj = _mini_eval(s.subject, env, syms)
+            for case in s.cases:
+                if _mini_match(case.pattern, subj) and case.guard is None:
+                    _mini_exec(case.body, env, syms)
+                    break
+        elif isinstance(s, ast.Return):
+            return
+        elif isinstance(s, ast.Pass):
+            continue
+        else:
+            raise Unfoldable('statement %s' % norm(s)[:40])
+
+
 # ---------------------------------------------------------------- R15.f
 def _roots_and_runners(A):
     parser_funcs = list(A.repo.all_functions('bardolph.parser'))
@@ -634,7 +719,7 @@ def _unset_chain(A, f, node, call, roots, opaque, seen, depth=0):
 
 
 @rule('R15.f', ('C15', 'C01'), 'the operand register is set inside the same '
-      'statement before every COLOR / POWER instruction', floor=6,
+      'statement before every COLOR / POWER instruction', floor=4,
       decides='a stage (or set / on / off) acts on what *it* names, whatever '
               'statement ran before it: a stage after `set default` still '
               'colours its rectangle')
